@@ -110,6 +110,9 @@ Definition dispatch (cmd : string) (args : list sexp) : option sexp :=
   | "expand", [x; sh] =>
       match dec_nt x, dec_list dec_nat sh with
       | Some x, Some sh => Some (enc_res enc_nt (expand_shared_to x sh)) | _, _ => None end
+  | "cat-entries", [l; dim] =>
+      match dec_list dec_nt l, dec_nat dim with
+      | Some l, Some dim => Some (enc_res enc_nt (cat_entries l dim)) | _, _ => None end
   | "cat", [l; dim] =>
       match dec_list dec_nt l, dec_nat dim with
       | Some l, Some dim => Some (enc_res enc_nt (cat_nt l dim)) | _, _ => None end
